@@ -247,6 +247,7 @@ func registerSym() {
 		}
 		return nil
 	})
+	regSym("Yield", func(fr *frame, args []value) value { fr.i.sched.yield("storage-callback"); return nil })
 	regSym("CheckLeaks", func(fr *frame, args []value) value { fr.i.path.leakCheck = true; return nil })
 	regSym("PoolNondet", func(fr *frame, args []value) value { fr.i.path.poolNondet = true; return nil })
 	regSym("SetGOMAXPROCS", func(fr *frame, args []value) value { fr.i.path.gomaxprocs = args[0].(int); return nil })
